@@ -4,6 +4,7 @@ import (
 	"fmt"
 	"go/token"
 	"go/types"
+	"sync"
 	"unicode/utf8"
 
 	"golang.org/x/tools/go/ssa"
@@ -553,10 +554,13 @@ func (e *Exec) mapDelete(m *MapObj, k Value) {
 	}
 }
 
-func (e *Exec) rangeIter(x Value) Value {
+func (e *Exec) rangeIter(x Value, in *ssa.Range) Value {
 	switch x := x.(type) {
 	case *MapObj:
 		it := &MapIter{M: x, Visited: map[*MapEntry]bool{}}
+		if in != nil && isCommutativeRange(in) {
+			it.Ordered = true
+		}
 		if x != nil {
 			it.StartN = x.seq
 		}
@@ -594,7 +598,7 @@ func (e *Exec) iterNext(g *G, it Value, in *ssa.Next) Value {
 		if e.hcfg != nil && e.hcfg.MaxRange > 0 {
 			maxr = e.hcfg.MaxRange
 		}
-		if len(cands)+len(late) > maxr+1 {
+		if len(cands)+len(late) > maxr+1 && !it.Ordered {
 			e.fail(OutBound, "range over map with %d unvisited entries (bound %d)", len(cands)+len(late), maxr)
 		}
 		// entries added during iteration may or may not be produced: option "stop ignoring late ones"
@@ -606,7 +610,10 @@ func (e *Exec) iterNext(g *G, it Value, in *ssa.Next) Value {
 		if len(cands) == 0 {
 			nopt = n + 1 // also: terminate without visiting late entries
 		}
-		c := e.chooseN(nopt, "maprange")
+		c := 0
+		if !it.Ordered {
+			c = e.chooseN(nopt, "maprange")
+		}
 		if c >= n {
 			return Tuple{tt.False, e.zeroOrNil(tup.At(1).Type()), e.zeroOrNil(tup.At(2).Type())}
 		}
@@ -797,4 +804,137 @@ func (e *Exec) implements(x Iface, it *types.Interface) bool {
 		}
 	}
 	return types.Implements(x.T, it)
+}
+
+// ---------- static detection of order-independent map-copy loops ----------
+
+var commutativeRange = map[*ssa.Range]bool{}
+var commutativeRangeMu sync.Mutex
+
+// isCommutativeRange reports whether the loop fed by a map Range only performs
+// `other[k] = v` style updates (k, v the loop's own key/value, other a loop-invariant map
+// different from the ranged one). With pairwise distinct keys such updates commute, so the
+// iteration order is unobservable and no fork over orders is needed.
+func isCommutativeRange(r *ssa.Range) bool {
+	commutativeRangeMu.Lock()
+	defer commutativeRangeMu.Unlock()
+	if v, ok := commutativeRange[r]; ok {
+		return v
+	}
+	res := analyzeRange(r)
+	commutativeRange[r] = res
+	return res
+}
+
+func analyzeRange(r *ssa.Range) bool {
+	if _, ok := r.X.Type().Underlying().(*types.Map); !ok {
+		return false
+	}
+	refs := r.Referrers()
+	if refs == nil || len(*refs) != 1 {
+		return false
+	}
+	next, ok := (*refs)[0].(*ssa.Next)
+	if !ok {
+		return false
+	}
+	hdr := next.Block()
+	// header: next, extract ok, if ok
+	var okv, kv, vv ssa.Value
+	for _, ref := range *next.Referrers() {
+		ex, ok := ref.(*ssa.Extract)
+		if !ok {
+			return false
+		}
+		switch ex.Index {
+		case 0:
+			okv = ex
+		case 1:
+			kv = ex
+		case 2:
+			vv = ex
+		}
+	}
+	if okv == nil {
+		return false
+	}
+	ifi, ok := hdr.Instrs[len(hdr.Instrs)-1].(*ssa.If)
+	if !ok || ifi.Cond != okv {
+		return false
+	}
+	body := hdr.Succs[0]
+	// collect loop body blocks: reachable from body without passing through hdr
+	seen := map[*ssa.BasicBlock]bool{hdr: true}
+	var stack = []*ssa.BasicBlock{body}
+	var blocks []*ssa.BasicBlock
+	backEdge := false
+	for len(stack) > 0 {
+		b := stack[len(stack)-1]
+		stack = stack[:len(stack)-1]
+		if seen[b] {
+			continue
+		}
+		seen[b] = true
+		blocks = append(blocks, b)
+		if len(blocks) > 4 {
+			return false
+		}
+		for _, s := range b.Succs {
+			if s == hdr {
+				backEdge = true
+				continue
+			}
+			stack = append(stack, s)
+		}
+	}
+	if !backEdge {
+		return false
+	}
+	inLoop := func(v ssa.Value) bool {
+		in, ok := v.(ssa.Instruction)
+		if !ok {
+			return false
+		}
+		if in.Block() == hdr {
+			return true
+		}
+		for _, b := range blocks {
+			if in.Block() == b {
+				return true
+			}
+		}
+		return false
+	}
+	for _, in := range hdr.Instrs {
+		switch in.(type) {
+		case *ssa.Next, *ssa.Extract, *ssa.If, *ssa.Phi, *ssa.DebugRef:
+		default:
+			return false
+		}
+	}
+	for _, b := range blocks {
+		if len(b.Succs) != 1 || b.Succs[0] != hdr {
+			return false // straight-line body only
+		}
+		for _, in := range b.Instrs {
+			switch x := in.(type) {
+			case *ssa.Extract, *ssa.Jump, *ssa.DebugRef:
+			case *ssa.MapUpdate:
+				if x.Map == r.X || inLoop(x.Map) {
+					return false
+				}
+				if x.Key != kv {
+					return false
+				}
+				if x.Value != vv {
+					if _, isConst := x.Value.(*ssa.Const); !isConst {
+						return false
+					}
+				}
+			default:
+				return false
+			}
+		}
+	}
+	return true
 }
